@@ -203,6 +203,16 @@ def build_controller(cfg, sel):
         'space_transfer_params': tpar,
         'base_transfer_params': {'finter': cfg['finter']},
     }
+    # construction history: a hierarchy with the same node counts and quadrature types but another node family is built
+    # (and dropped) first; whatever the library keeps between constructions must not reach this one
+    import copy
+
+    twin = copy.deepcopy(desc)
+    twin['sweeper_params']['node_type'] = ['EQUID' if nt == 'LEGENDRE' else 'LEGENDRE' for nt in sp['node_type']]
+    try:
+        controller_nonMPI(1, {'logger_level': 90}, twin)
+    except Exception:  # noqa: BLE001  (an unsupported twin is not this case's subject)
+        pass
     controller = controller_nonMPI(1, {'logger_level': 90}, desc)
     return controller, setup
 
@@ -660,6 +670,7 @@ def node_sets(tier):
             [('LEGENDRE', R_, 2), ('LEGENDRE', R_, 1)], [('LEGENDRE', L_, 3), ('LEGENDRE', L_, 2)], [('LEGENDRE', L_, 5), ('LEGENDRE', L_, 3)],
             [('LEGENDRE', G_, 3), ('LEGENDRE', G_, 2)], [('LEGENDRE', G_, 4), ('LEGENDRE', G_, 1)], [('EQUID', R_, 4), ('EQUID', R_, 2)],
             [('LEGENDRE', R_, 3), ('LEGENDRE', L_, 2)], [('CHEBY-1', G_, 4), ('LEGENDRE', G_, 2)], [('LEGENDRE', RL, 3), ('LEGENDRE', RL, 2)],
+            [('EQUID', R_, 5), ('EQUID', R_, 3)], [('CHEBY-2', L_, 4), ('CHEBY-2', L_, 2)],
         ]  # fmt: skip
         triples = [
             [('LEGENDRE', R_, 5), ('LEGENDRE', R_, 3), ('LEGENDRE', R_, 2)], [('LEGENDRE', R_, 3), ('LEGENDRE', R_, 3), ('LEGENDRE', R_, 2)],
